@@ -63,6 +63,8 @@ ensures
     res is Ok && child_target(dec(index), child_resolution) == dec(index).resolution ==> res->Ok_0@ == seq![enc(dec(index))],    // [C07,C14:cell_to_children.same-resolution]
     res is Ok && child_target(dec(index), child_resolution) > dec(index).resolution ==> res->Ok_0@ == kids_ids(dec(index), child_target(dec(index), child_resolution)),   // [C07:cell_to_children.value]
     decodable(index) && dec(index).resolution <= child_target(dec(index), child_resolution) <= 29 && kid_levels(dec(index), child_target(dec(index), child_resolution)) <= 8 ==> res is Ok,   // [C07:cell_to_children.total-in-scope]
+//@at entry
+hide(enc); hide(dec); hide(decodable); hide(res_of); hide(code6);
 //@at after-let cell
 proof {
     lemma_enc_dec(index);
@@ -134,6 +136,95 @@ proof {
 //@at loop 2 after
 proof {
     assert(children@ =~= kids_outer(cell, new_resolution as int, __k_new_origin_id as int + 1));
+}
+//@end
+
+//@extract fn get_res0_cells from src/core/serialization.rs ret=res tags=C07,C14
+//@spec
+ensures
+    res is Ok,                                                                     // [C07:get_res0_cells.total]
+    res->Ok_0@ == kids_ids(world(), 0),                                            // [C07:get_res0_cells.value]
+//@at entry
+proof {
+    lemma_res_of_enc(world());
+    lemma_dec_enc(world());
+    assert(kid_levels(world(), 0) == 0);
+}
+//@end
+
+//@extract const AUTHALIC_AREA from src/core/cell_info.rs
+//@end
+
+//@extract fn get_num_cells from src/core/cell_info.rs ret=r tags=C04,C14
+//@spec
+ensures
+    resolution < 0 ==> r == 0,
+    resolution == 0 ==> r == 12,                                                   // [C04:get_num_cells.base]
+    1 <= resolution <= 27 ==> r == 60 * ipow(4, (resolution - 1) as nat),          // [C04:get_num_cells.exact]
+    28 <= resolution <= 29 ==> r >= 1 && close_to(r as int, 60 * ipow(4, (resolution - 1) as nat)),   // [C04:get_num_cells.rounded]
+    resolution >= 0 ==> r >= 1,
+//@at entry
+proof {
+    if 1 <= resolution <= 31 {
+        lemma_pow4_shift((resolution - 1) as nat);
+        let k = (2 * (resolution - 1)) as u64;
+        assert(k <= 52 ==> (1u64 << k) <= 0x10000000000000u64) by (bit_vector);
+        assert((1u64 << 54) == 0x40000000000000u64) by (bit_vector);
+        assert((1u64 << 56) == 0x100000000000000u64) by (bit_vector);
+    }
+    if resolution >= 1 { lemma_ipow_pos(4, (resolution - 1) as nat); }
+}
+//@end
+
+//@extract fn get_num_children from src/core/cell_info.rs ret=r tags=C09,C14
+//@spec
+requires
+    -1 <= parent_resolution <= 29,
+    -1 <= child_resolution <= 29,
+ensures
+    child_resolution < parent_resolution ==> r == 0,
+    child_resolution == parent_resolution ==> r == 1,
+    child_resolution >= parent_resolution ==> r >= 1,
+    parent_resolution <= child_resolution <= 27 ==> r == fan(parent_resolution as int, child_resolution as int),   // [C09:get_num_children.fanout]
+    parent_resolution >= 2 && parent_resolution <= child_resolution ==> r == fan(parent_resolution as int, child_resolution as int),
+//@at entry
+proof {
+    if child_resolution > parent_resolution {
+        lemma_pow4_shift((child_resolution - parent_resolution) as nat);
+        let k = (2 * (child_resolution - parent_resolution)) as u64;
+        assert(k <= 62 ==> (1u64 << k) <= 0x4000000000000000u64 && (1u64 << k) >= 1) by (bit_vector);
+        if child_resolution >= 1 { lemma_pow4_shift((child_resolution - 1) as nat); }
+        if child_resolution >= 1 { assert(fan(0, child_resolution as int) == 5 * fan(1, child_resolution as int)); }
+        assert(ipow(4, 0) == 1);
+        if child_resolution >= 1 { lemma_ipow_pos(4, (child_resolution - 1) as nat); }
+    }
+}
+//@at before-tail
+proof {
+    let c = child_resolution as int;
+    let p = parent_resolution as int;
+    assert(p < 2 && c > p);
+    if c >= 1 {
+        let k = ipow(4, (c - 1) as nat);
+        lemma_ipow_pos(4, (c - 1) as nat);
+        assert(fan(1, c) == k) by { if c == 1 { assert(ipow(4, 0) == 1); } }
+        assert(fan(0, c) == 5 * k);
+        assert(fan(-1, c) == 12 * fan(0, c));
+        if c <= 27 {
+            assert(child_count == 60 * k);
+            if p == 0 { assert((60 * k) / 12 == 5 * k); }
+            if p == 1 { assert(parent_count == 60); assert((60 * k) / 60 == k) by (nonlinear_arith) requires k >= 1; }
+        } else {
+            // JS-rounded literals: the quotient is still >= 1
+            assert(child_count >= 60);
+        }
+        assert(parent_count == 1 || parent_count == 12 || parent_count == 60);
+        assert(child_count as int / parent_count as int >= 1) by (nonlinear_arith)
+            requires child_count >= 60, 1 <= parent_count <= 60;
+    } else {
+        assert(c == 0 && p == -1);
+        assert(fan(-1, 0) == 12 * fan(0, 0));
+    }
 }
 //@end
 
